@@ -2,7 +2,7 @@
 Model of `SchemaCollection.add` (`suds/xsd/schema.py`): schema nodes with one target namespace are
 consolidated under the first node — the later node's children are moved, local element
 declarations that relied on a different `elementFormDefault` get that default written on them, and
-only prefixes the first node does not bind are added to its prefix table. No Mathlib import.
+only prefixes not bound in the first node's scope (on the node or above it) are added to its prefix table. No Mathlib import.
 -/
 namespace Suds.Xsd
 
@@ -47,6 +47,27 @@ structure SchemaNode where
 def consolidate (a b : SchemaNode) : SchemaNode :=
   { formDefault := a.formDefault,
     prefixes := mergePrefixes a.prefixes b.prefixes,
+    locals := a.locals ++ b.locals.map (stampForm b.formDefault a.formDefault) }
+
+/-- what a prefix means for the content of a node: its own table first, then what the node inherits -/
+def scopeLookup (p : String) (own outer : PrefixTable) : Option String :=
+  match tlookup p own with
+  | some u => some u
+  | none => tlookup p outer
+
+/-- the hand-over when the first node stands below `outer` bindings (`resolvePrefix` looks up the
+ancestors): only a prefix bound nowhere in the first node's scope is added -/
+def mergePrefixesIn (outer existing : PrefixTable) : PrefixTable → PrefixTable
+  | [] => existing
+  | (p, u) :: rest =>
+    match scopeLookup p existing outer with
+    | some _ => mergePrefixesIn outer existing rest
+    | none => mergePrefixesIn outer (existing ++ [(p, u)]) rest
+
+/-- the first node, standing below `outer`, after `add(second)` -/
+def consolidateIn (outer : PrefixTable) (a b : SchemaNode) : SchemaNode :=
+  { formDefault := a.formDefault,
+    prefixes := mergePrefixesIn outer a.prefixes b.prefixes,
     locals := a.locals ++ b.locals.map (stampForm b.formDefault a.formDefault) }
 
 end Suds.Xsd
